@@ -249,7 +249,24 @@ def run_pair(res, rng, tier, null_name, alt_name):
     sig_base = (label, "multi" if (alt.get_num_free_params() - null.get_num_free_params()) >= 2 else "single")
     # fit the null with some budget (also decided)
     optimise_and_decide(res, null, rng, tier, "null-fit", detail, (label, "null"))
+    if rng.random() < 0.3 and "null_zero_length_edge" not in detail:
+        # (one zero-length edge per problem: two of them between different sequences make the true likelihood zero and
+        # what the functions then report is rounding noise of P(0), which no relation can be demanded of)
+        # a FREE branch length of the nested fit sits at exactly zero (its lower bound): an estimate of 0.0 is a value
+        ze2 = rng.choice(M.edges(tree))["name"]
+        try:
+            null.set_param_rule("length", edge=ze2, init=0.0)
+            detail["null_free_length_at_zero"] = ze2
+            res.count("nested-init:null-free-length-at-zero")
+        except Exception as e:  # noqa: BLE001
+            res.evals += 1
+            res.witness(exc_mechanism(f"C16/{label}/set-zero-length", e), **detail)
+            return
     null_lnL = float(null.lnL)
+    if not math.isfinite(null_lnL):
+        res.refused += 1  # zero-length edges between different sequences: the nested model gives the data likelihood 0
+        res.count("refused:nested-likelihood-is-zero")
+        return
     if alt.get_num_free_params() <= null.get_num_free_params():
         res.refused += 1  # documented assertion "wrong order": nesting needs more free parameters in alt
         res.count("refused:alt-has-no-more-free-params")
@@ -289,7 +306,7 @@ def run_pair(res, rng, tier, null_name, alt_name):
     if "null_zero_length_edge" in detail:
         res.count("nested-init:null-with-zero-length-edge")
     if not close(alt_lnL, null_lnL, 1e-8):
-        res.witness(f"C16/nested-init/lnL-differs/{label}" + ("/null-has-constant-param" if "null_constant" in detail else "") + ("/null-has-zero-length-edge" if "null_zero_length_edge" in detail else "") + ("/alt-used-before" if used else ""), null_lnL=null_lnL, alt_lnL=alt_lnL, **detail)
+        res.witness(f"C16/nested-init/lnL-differs/{label}" + ("/null-has-constant-param" if "null_constant" in detail else "") + ("/null-has-zero-length-edge" if "null_zero_length_edge" in detail or "null_free_length_at_zero" in detail else "") + ("/alt-used-before" if used else ""), null_lnL=null_lnL, alt_lnL=alt_lnL, **detail)
         return
     final = optimise_and_decide(res, alt, rng, tier, "alt-fit", detail, sig_base)
     if final is not None:
@@ -498,7 +515,7 @@ def run_case(case):
 
 
 def required(counters, tier):
-    need = ["start-on-upper-bound:ended-on-bound", "nested-init-checked", "nested-init:null-with-constant-rate-param", "nested-by-scope", "trace-checked", "trace:optimiser-last-not-best", "optimiser:local", "bounds-checked", "LR-checked", "app-hypothesis-runs", "app:statistics-after-continuation-checked", "nested-init:alt-own-starting-values", "nested-init:null-with-zero-length-edge", "budget:1", "budget:200"]
+    need = ["start-on-upper-bound:ended-on-bound", "nested-init-checked", "nested-init:null-with-constant-rate-param", "nested-by-scope", "trace-checked", "trace:optimiser-last-not-best", "optimiser:local", "bounds-checked", "LR-checked", "app-hypothesis-runs", "app:statistics-after-continuation-checked", "nested-init:alt-own-starting-values", "nested-init:null-with-zero-length-edge", "nested-init:null-free-length-at-zero", "budget:1", "budget:200"]
     if not (counters.get("optimiser:global") or counters.get("optimiser:global+local")):
         need.append("optimiser:global")
     return [n for n in need if not counters.get(n)]
